@@ -297,7 +297,9 @@ func C20(blk *hist.Block) []Finding {
 							mentions++
 						}
 					}
-					if signedOrTouched[pd.Owner] == 0 && pd.Owner != buyer && mentions == 0 && pd.Beneficiary != pd.Owner+"x" {
+					// (a proposal finalised in the block distributes its funds to proposer, validators and pools
+					// without naming them in any transaction)
+					if signedOrTouched[pd.Owner] == 0 && pd.Owner != buyer && mentions == 0 && pd.Beneficiary != pd.Owner+"x" && !proposalFinalised(blk) {
 						d := new(big.Int).Sub(amountAt(blk.Cur, "b_"+pd.Owner+"_OLT"), amountAt(blk.Prev, "b_"+pd.Owner+"_OLT"))
 						if d.Cmp(pd.Price()) != 0 {
 							out = append(out, Finding{"C20", "C20/purchase/seller-not-paid-asking-price", fmt.Sprintf("block %d: %s was sold for %s, the previous owner %s received %s", blk.H, n, pd.Price(), pd.Owner, d)})
@@ -378,6 +380,14 @@ func C20(blk *hist.Block) []Finding {
 						out = append(out, Finding{"C20", "C20/renewed-by-non-owner", fmt.Sprintf("block %d: %s renewed by %s, its owner is %s", blk.H, n, rn.signer, pd.Owner)})
 					}
 				}
+			}
+		}
+	}
+	// a sub-name expires with its parent: in every committed state, whatever happened in the block
+	for n, cd := range cur {
+		if i := strings.Index(n, "."); i > 0 && strings.Count(n, ".") >= 2 {
+			if par := cur[n[i+1:]]; par != nil && cd.Expire != par.Expire {
+				out = append(out, Finding{"C20", "C20/expiry/sub-domain-not-with-parent", fmt.Sprintf("block %d: sub-name %s expires at %d, its parent %s at %d", blk.H, n, cd.Expire, n[i+1:], par.Expire)})
 			}
 		}
 	}
